@@ -10,7 +10,12 @@
   `p` can have — and if its parent then fails low, the parent's store hands `Inf - k` to the table at
   ply `p - 1`, where `Insert` re-bases it to `Inf - k + p - 1 > Inf`.  The skeleton records the event
   in the ghost flag `St.nmpOut` (Model/Search.lean `nullMove`); the range development
-  (Proofs/SearchScore{Q,AB,Root,Go,Free}.lean, Proofs/SearchFinalFree.lean) is guarded by it.
+  (Proofs/SearchScore{Q,AB,Root,Go,Free}.lean, Proofs/SearchFinalFree.lean) is guarded by it.  The
+  event itself — the parent's store of the out-of-band value — is recorded by a second ghost flag,
+  `St.ttOut` (raised at the five store sites when the value stored at `ply` is not ply-consistent); the
+  development Proofs/SearchScore{Q2,AB2,Root2,Go2,Free2}.lean, Proofs/SearchFinalFree2.lean is guarded by
+  that flag, and Props/C06real.lean states the theorems for `realComp` under `ttOut = false`
+  (`go_free_ttOut`: `nmpOut = false` implies it).
 
     TTokReal ps  := PSok ps ∧ TTValsOK ps.tt      (raw table values within ±Inf)
     muReal       := men + pawns                    (Proofs/SearchRealMeasure.lean)
